@@ -117,7 +117,7 @@ def rand_tree(rng):
         levels[0]['resources'].pop('ra', None)
     for i in range(len(levels) - 1):
         levels[i]['child'] = {'prefix': rng.choice(PREFIXES), 'inherit_slashes': rng.random() < 0.7,
-                              'rebind_render': rng.random() < 0.3}
+                              'rebind_render': rng.random() < 0.3, 'as_tuple': rng.random() < 0.5}
     return {'levels': levels}
 
 
@@ -138,7 +138,11 @@ def build_nested(tree):
             routes = [Route(p, eps[e], 'T-' + e if e == 'tmpl' else None) for p, e in lv['routes']]
         else:
             ch = lv['child']
-            routes = [SubApplication(ch['prefix'], app, rebind_render=ch['rebind_render'], inherit_slashes=ch['inherit_slashes'])]
+            if ch.get('as_tuple'):
+                # the documented shorthand: (prefix, application[, rebind_render[, inherit_slashes]])
+                routes = [(ch['prefix'], app, ch['rebind_render'], ch['inherit_slashes'])]
+            else:
+                routes = [SubApplication(ch['prefix'], app, rebind_render=ch['rebind_render'], inherit_slashes=ch['inherit_slashes'])]
         app = Application(routes, **kw)
     return app
 
